@@ -13,7 +13,7 @@ Oracle: stated directly over the real code (strict session: aborts or lines up).
 import threading
 import time
 
-from common import coq, Raw, with_watchdog
+from common import coq, with_watchdog
 
 PID = "C09"
 LEVEL_TEXT = ("Machine-checked proof (Coq) over an executable model of Transport.run's dispatch, "
